@@ -99,7 +99,7 @@ struct E5 : Engine {
 		static const char *encs[] = {"hmac","hmac-md5","hmac-sha1","hmac-sha224","hmac-sha256","hmac-sha384","hmac-sha512","aes","aes128","aes192","aes256","split-sha1","split-sha256"};
 		if(prop == "C05"){
 			if(r.below(4) == 0){ p["key_file"] = 1; if(r.below(2)) p["key_file_short"] = 2 * (int)r.below(16); }
-			p["enc"] = encs[r.below(13)]; p["key_seed"] = (int)r.below(1000); p["key_case"] = (int)r.below(3); p["grouping_locale"] = (int)(r.below(5) == 0); p["timeout"] = 10 + (int)r.below(3000);
+			p["enc"] = encs[r.below(13)]; p["key_seed"] = (int)r.below(1000); p["key_case"] = (int)r.below(3); p["long_keys"] = (int)(r.below(6) == 0); p["grouping_locale"] = (int)(r.below(5) == 0); p["timeout"] = 10 + (int)r.below(3000);
 			if(r.below(6) == 0){ J uf = J::arr(); int n = 1 + (int)r.below(3); for(int k=0;k<n;k++) uf.push((int)r.below(r.below(2) ? 4 : 30)); p["urandom_fail"] = uf; }   // no entropy: open("/dev/urandom") fails at these calls (descriptor exhaustion)
 			p["strategy"] = (int)r.below(3); p["pct_depth"] = 1 + (int)r.below(3); p["pct_len"] = 20 + (int)r.below(400);
 			if(r.below(4) == 0) p["reuse"] = 1;   // one long-lived session_interface re-targeted with set_cookie_adapter_and_reload(): what an accepted cookie loaded must be gone when the next one is rejected
@@ -122,7 +122,7 @@ struct E5 : Engine {
 		}
 		// C06
 		static const char *locs[] = {"client","server","both"}; static const char *exps[] = {"fixed","renew","browser"}; static const char *stors[] = {"memory","files","memory","files","network"}; /* "plain": see PlainStorage */
-		p["location"] = locs[r.below(3)]; p["expire"] = exps[r.below(3)]; p["storage"] = r.below(7) == 0 ? "plain" : stors[r.below(5)]; p["enc"] = encs[r.below(13)]; p["key_seed"] = (int)r.below(1000); p["key_case"] = (int)r.below(3); p["grouping_locale"] = (int)(r.below(5) == 0);
+		p["location"] = locs[r.below(3)]; p["expire"] = exps[r.below(3)]; p["storage"] = r.below(7) == 0 ? "plain" : stors[r.below(5)]; p["enc"] = encs[r.below(13)]; p["key_seed"] = (int)r.below(1000); p["key_case"] = (int)r.below(3); p["long_keys"] = (int)(r.below(6) == 0); p["grouping_locale"] = (int)(r.below(5) == 0);
 		p["timeout"] = 5 + (int)r.below(r.below(2) ? 40 : 4000); p["client_size_limit"] = (int)(r.below(2) ? 30 + r.below(200) : 2048); p["remove_unknown"] = (int)r.below(2);
 		p["p_file_short"] = r.below(4) == 0 ? (int)r.below(300) : 0; p["p_file_eintr"] = r.below(4) == 0 ? (int)r.below(100) : 0;
 		bool net_faults = p.gets("storage") == "network" && r.below(2);   // resets of the storage connection, at most one per request (sequential plans only)
@@ -131,7 +131,7 @@ struct E5 : Engine {
 		int nb = 1 + r.below(3); p["browsers"] = nb; p["conc"] = (int)(nb > 1 && r.below(3) == 0); p["reuse"] = (int)(!p.geti("conc") && r.below(4) == 0);   /* reuse: one long-lived session_interface re-targeted to each request with set_cookie_adapter_and_reload() */ p["strategy"] = (int)r.below(3); p["pct_depth"] = 1 + (int)r.below(3); p["pct_len"] = 50 + (int)r.below(2000);
 		// capi: the sessions are driven through the C API (cppcms/capi/session.h), the way other languages use them
 		if(r.below(10) == 0){ p["capi"] = 1; p["location"] = r.below(2) ? "client" : "server"; p["timeout"] = 1000 + (int)r.below(100000); J cr = J::arr(); int nr = 2 + r.below(7);
-			for(int i=0;i<nr;i++){ J q = J::arr(); int no = r.below(6); for(int k=0;k<no;k++){ J o = J::obj(); static const char *ops[] = {"set","set","get","len","bin","is_set","erase","expose","hide","clear","reset","keys","len","get"}; static const char *keys[] = {"a","b","user","never"}; o["op"] = ops[r.below(14)]; o["k"] = keys[r.below(4)]; o["len"] = (int)r.below(40); q.push(o); } cr.push(q); } p["creqs"] = cr; }
+			for(int i=0;i<nr;i++){ J q = J::arr(); int no = r.below(6); for(int k=0;k<no;k++){ J o = J::obj(); static const char *ops[] = {"set","set","get","len","bin","is_set","erase","expose","hide","clear","reset","keys","len","get"}; static const char *keys[] = {"a","b","user","never"}; o["op"] = ops[r.below(14)]; o["k"] = keys[r.below(4)]; o["len"] = (int)r.below(40); q.push(o); } cr.push(q); } p["creqs"] = cr; { J sp = J::arr(); for(int i=1;i<nr;i++) if(r.below(4) == 0) sp.push(i); p["cspoil"] = sp; } }
 		// twin: several concurrent requests of ONE browser (tabs / parallel asynchronous calls presenting the same session cookie) plus gc, all scheduled threads
 		if(r.below(8) == 0){ p["twin"] = 1; p["location"] = "server"; static const char *ts[] = {"files","files","files","memory","network"}; p["storage"] = ts[r.below(5)]; p["flock"] = (int)r.below(2); p["tabs"] = 2 + (int)r.below(2); p["timeout"] = 1000 + (int)r.below(100000); if(r.below(4) == 0){ p["procs"] = 2; p["storage"] = "files"; }   /* procs 2: two worker processes (two cppcms::service objects whose session pools configure the file storage themselves, session.server.shared at its default) share the session directory */
 			J tr = J::arr(); int nt = 2 + r.below(6); for(int i=0;i<nt;i++){ J q = J::obj(); q["tab"] = (int)r.below(3); q["len"] = (int)(r.below(3) == 0 ? r.below(3000) : r.below(40)); q["ro"] = (int)(r.below(4) == 0); tr.push(q); } p["treqs"] = tr; p["gcs"] = (int)r.below(3); }
@@ -148,7 +148,7 @@ struct E5 : Engine {
 					else if(y < 50){ o["op"] = "clear"; }
 					else if(y < 60){ o["op"] = "expose"; o["k"] = keys[r.below(4)]; }
 					else if(y < 66){ o["op"] = "hide"; o["k"] = keys[r.below(4)]; }
-					else if(y < 74){ o["op"] = "age"; o["t"] = (int)(1 + r.below(r.below(2) ? 30 : 20000)); }
+					else if(y < 74){ o["op"] = "age"; o["t"] = (int)(1 + r.below(r.below(2) ? 30 : 20000)); if(r.below(25) == 0) o["t"] = 480000000 + (int)r.below(200000000); }   /* "remember me" for 15..21 years: the deadline lies beyond January 2038 */
 					else if(y < 78){ o["op"] = "default_age"; }
 					else if(y < 85){ o["op"] = "expiration"; o["h"] = (int)r.below(3); }
 					else if(y < 88){ o["op"] = "default_expiration"; }
@@ -167,18 +167,19 @@ struct E5 : Engine {
 
 	static std::string hexkey(int seed,int bytes){ std::string k; simk::Rng r; r.seed(777 + seed); static const char *hx = "0123456789abcdef"; for(int i=0;i<bytes*2;i++) k += hx[r.below(16)]; return k; }
 	static std::string norm_enc(const std::string &e){ static const char *known[] = {"hmac","hmac-md5","hmac-sha1","hmac-sha224","hmac-sha256","hmac-sha384","hmac-sha512","aes","aes128","aes192","aes256","split-sha1","split-sha256"}; for(auto k:known) if(e == k) return e; return "hmac"; }   // anything else is reached only by minimisation
+	static int &long_keys(){ static int c = 0; return c; }
 	static int &key_case(){ static int c = 0; return c; }   /* how the hexadecimal key text is spelt in the configuration: 0 lower case, 1 upper case, 2 mixed - the key material is the same */
 	static std::string spell(std::string h){ int c = key_case(); for(size_t i=0;i<h.size();i++) if(h[i] >= 'a' && h[i] <= 'f' && (c == 1 || (c == 2 && (i * 7 + h.size()) % 3 == 0))) h[i] = (char)(h[i] - 'a' + 'A'); return h; }
 	static void configure_enc(cppcms::json::value &v,const std::string &enc_in,int key_seed){
 		std::string enc = norm_enc(enc_in);
-		if(enc.compare(0,5,"split") == 0){ v["session"]["client"]["hmac"] = enc.substr(6); v["session"]["client"]["hmac_key"] = spell(hexkey(key_seed,24)); v["session"]["client"]["cbc"] = "aes"; v["session"]["client"]["cbc_key"] = spell(hexkey(key_seed+1,16)); }
-		else { v["session"]["client"]["encryptor"] = enc; int kb = enc.compare(0,3,"aes") == 0 ? (enc == "aes192" ? 24 : enc == "aes256" ? 32 : 16) : 20; v["session"]["client"]["key"] = spell(hexkey(key_seed,kb)); }
+		if(enc.compare(0,5,"split") == 0){ v["session"]["client"]["hmac"] = enc.substr(6); v["session"]["client"]["hmac_key"] = spell(hexkey(key_seed,long_keys() ? 65 + key_seed % 90 : 24)); v["session"]["client"]["cbc"] = "aes"; v["session"]["client"]["cbc_key"] = spell(hexkey(key_seed+1,16)); }
+		else { v["session"]["client"]["encryptor"] = enc; int kb = enc.compare(0,3,"aes") == 0 ? (enc == "aes192" ? 24 : enc == "aes256" ? 32 : 16) : (long_keys() ? 65 + key_seed % 90 : 20); v["session"]["client"]["key"] = spell(hexkey(key_seed,kb)); }   /* long_keys: MAC keys longer than the hash's block (64 / 128 bytes): HMAC hashes such a key down first */
 	}
 	static cppcms::json::value settings(const J &plan,const std::string &location){
 		cppcms::json::value v; v["session"]["location"] = location; v["session"]["expire"] = plan.gets("expire","fixed") == "renew" ? "renew" : plan.gets("expire","fixed") == "browser" ? "browser" : "fixed";
 		v["session"]["timeout"] = (int)std::max<int64_t>(1,std::min<int64_t>(plan.geti("timeout",100),100000000)); v["session"]["cookies"]["prefix"] = PREFIX; v["session"]["client_size_limit"] = (int)std::max<int64_t>(0,plan.geti("client_size_limit",2048));
 		v["session"]["cookies"]["remove_unknown_cookies"] = (bool)plan.geti("remove_unknown",1); v["session"]["gc"] = 0;
-		key_case() = (int)(((plan.geti("key_case") % 3) + 3) % 3); configure_enc(v,plan.gets("enc","hmac"),(int)plan.geti("key_seed")); v["session"]["server"]["storage"] = "memory";
+		key_case() = (int)(((plan.geti("key_case") % 3) + 3) % 3); long_keys() = plan.geti("long_keys") != 0; configure_enc(v,plan.gets("enc","hmac"),(int)plan.geti("key_seed")); v["session"]["server"]["storage"] = "memory";
 		return v;
 	}
 	static std::string my_b64url_decode(const std::string &s,bool &ok){ std::string r; uint32_t acc = 0; int bits = 0; ok = true; for(char c:s){ int v = c >= 'A' && c <= 'Z' ? c-'A' : c >= 'a' && c <= 'z' ? c-'a'+26 : c >= '0' && c <= '9' ? c-'0'+52 : c == '-' ? 62 : c == '_' ? 63 : -1; if(v < 0){ ok = false; return r; } acc = (acc << 6) | v; bits += 6; if(bits >= 8){ bits -= 8; r += (char)((acc >> bits) & 0xff); } } return r; }
@@ -190,10 +191,10 @@ struct E5 : Engine {
 	static const EVP_MD *md_by_name(const std::string &n){ return n == "md5" ? EVP_md5() : n == "sha1" ? EVP_sha1() : n == "sha224" ? EVP_sha224() : n == "sha256" ? EVP_sha256() : n == "sha384" ? EVP_sha384() : n == "sha512" ? EVP_sha512() : nullptr; }
 	static std::string independent_tag_check(const std::string &enc,int key_seed,const std::string &cookie_bytes){
 		const EVP_MD *md = nullptr; std::string mac_key;
-		if(enc.compare(0,5,"split") == 0){ md = md_by_name(enc.substr(6)); mac_key = unhex(hexkey(key_seed,24)); }
+		if(enc.compare(0,5,"split") == 0){ md = md_by_name(enc.substr(6)); mac_key = unhex(hexkey(key_seed,long_keys() ? 65 + key_seed % 90 : 24)); }
 		else if(enc.compare(0,3,"aes") == 0){ int kb = enc == "aes192" ? 24 : enc == "aes256" ? 32 : 16; std::string key = unhex(hexkey(key_seed,kb)); mac_key = ossl_hmac(EVP_sha256(),key,std::string("\x01",1)).substr(0,20); md = EVP_sha1(); }
-		else if(enc == "hmac"){ md = EVP_sha1(); mac_key = unhex(hexkey(key_seed,20)); }
-		else if(enc.compare(0,5,"hmac-") == 0){ md = md_by_name(enc.substr(5)); mac_key = unhex(hexkey(key_seed,20)); }
+		else if(enc == "hmac"){ md = EVP_sha1(); mac_key = unhex(hexkey(key_seed,long_keys() ? 65 + key_seed % 90 : 20)); }
+		else if(enc.compare(0,5,"hmac-") == 0){ md = md_by_name(enc.substr(5)); mac_key = unhex(hexkey(key_seed,long_keys() ? 65 + key_seed % 90 : 20)); }
 		if(!md) return "";
 		size_t ds = (size_t)EVP_MD_size(md); if(cookie_bytes.size() < ds) return "cookie shorter than its authentication tag";
 		std::string body = cookie_bytes.substr(0,cookie_bytes.size()-ds), tag = cookie_bytes.substr(cookie_bytes.size()-ds);
@@ -328,6 +329,8 @@ struct E5 : Engine {
 		for(size_t ri=0;ri<reqs.size() && ri<12 && res.ok;ri++){ std::string where = "capi request#" + std::to_string(ri); cnt["requests"]++; cnt["capi_requests"]++;
 			struct Sess { cppcms_capi_session *s; Sess() : s(cppcms_capi_session_new()) {} ~Sess(){ cppcms_capi_session_delete(s); } } ss; cppcms_capi_session *s = ss.s;
 			auto err = [&](const char *what){ if(cppcms_capi_error(s)){ res.fail("capi-error",where + ": " + what + ": " + cppcms_capi_error_message(s)); return true; } return false; };
+			{ const J &sp = plan.get("cspoil"); bool spoil = false; for(size_t q=0;q<sp.size();q++) if((size_t)sp.a[q].as_int() == ri) spoil = true;   /* the browser presents a damaged session cookie: the load rejects it (the library emits its removal) and the same request stores new data */
+			  if(spoil && plan.geti("remove_unknown",1) && jar.jar.count(PREFIX) && jar.jar[PREFIX].value.size() > 8){   /* (with remove_unknown_cookies off the exposed cookies of the lost session legitimately stay in the browser: not what this scenario is about) */ std::string &cv = jar.jar[PREFIX].value; size_t mid = cv.size()/2; cv[mid] = cv[mid] == 'A' ? 'B' : 'A'; model.clear(); cnt["capi_spoiled_cookies"]++; } }
 			jar.begin_request(); cppcms_capi_session_init(s,pool.p); if(err("init")) break;
 			std::string cname = cppcms_capi_session_get_session_cookie_name(s); for(auto &kv:jar.request_cookies){ if(kv.first == cname) cppcms_capi_session_set_session_cookie(s,kv.second.c_str()); else cppcms_capi_session_add_cookie_name(s,kv.first.c_str()); }
 			cppcms_capi_session_load(s); if(err("load")) break;
@@ -495,7 +498,7 @@ struct E5 : Engine {
 				else if(op == "clear"){ s.clear(); cur.clear(); }
 				else if(op == "expose"){ s.expose(key); cur[key].exposed = true; }
 				else if(op == "hide"){ s.hide(key); cur[key].exposed = false; }
-				else if(op == "age"){ int t = (int)std::max<int64_t>(1,std::min<int64_t>(o.geti("t",10),100000000)); s.age(t); tval = t; cur["_t"].value = std::to_string(t); }
+				else if(op == "age"){ int t = (int)std::max<int64_t>(1,std::min<int64_t>(o.geti("t",10),1000000000)); s.age(t); tval = t; cur["_t"].value = std::to_string(t); }
 				else if(op == "default_age"){ s.default_age(); tval = def_timeout; cur.erase("_t"); }
 				else if(op == "expiration"){ int h = (int)(((o.geti("h") % 3)+3)%3); s.expiration(h); how = h; cur["_h"].value = std::to_string(h); }
 				else if(op == "default_expiration"){ s.default_expiration(); how = def_how; cur.erase("_h"); }
